@@ -201,6 +201,28 @@ structure DkgInput where
   sigs : List (Nat × Bytes)
   ids : List Nat
 
+/-! ### where the client's lists come from: `group.Group` marks and `dkg.Result` -/
+
+/-- one `MarkMemberAsInactive` (`dq = false`) / `MarkMemberAsDisqualified` (`dq = true`) on a group
+    of members `1..n`: nothing happens unless the member `IsOperating`. State = (inactive,
+    disqualified) in marking order. -/
+def applyMark (n : Nat) (st : List Nat × List Nat) (m : Bool × Nat) : List Nat × List Nat :=
+  let (ia, dq) := st
+  let idx := m.2
+  if 1 ≤ idx ∧ idx ≤ n ∧ ¬ idx ∈ ia ∧ ¬ idx ∈ dq then
+    if m.1 then (ia, dq ++ [idx]) else (ia ++ [idx], dq)
+  else st
+
+def applyMarks (n : Nat) (marks : List (Bool × Nat)) : List Nat × List Nat :=
+  marks.foldl (applyMark n) ([], [])
+
+/-- `Group.OperatingMemberIndexes` -/
+def groupOperating (n : Nat) (st : List Nat × List Nat) : List Nat :=
+  (List.range' 1 n).filter (fun j => !(st.1.contains j) && !(st.2.contains j))
+
+/-- `dkg.Result.MisbehavedMembersIndexes`: the set of inactive and disqualified members, sorted -/
+def resultMisbehaved (st : List Nat × List Nat) : List Nat := sortNat (dedup (st.1 ++ st.2))
+
 /-- `AssembleDKGResult` -/
 def assembleDKGResult (H : Bytes → Bytes) (inp : DkgInput) : Except Err DkgResult :=
   match pubKeyChain inp.x inp.y with
